@@ -34,10 +34,10 @@ func TestMain(m *testing.M) {
 var ctx = context.Background()
 
 type backend struct {
-	name    string
-	ms      appencryption.Metastore
-	suffix  string // expected GetRegionSuffix()
-	cleanup func()
+	name        string
+	ms          appencryption.Metastore
+	suffix      string // expected GetRegionSuffix()
+	cleanup     func()
 	unsupported func() []string
 }
 
